@@ -1,0 +1,26 @@
+# vim: set fileencoding=utf-8 :
+'''Tracing hooks used by external verification tooling.
+
+The conversion passes call :func:`emit` at their boundaries with references to
+the live dictionaries.  Nothing happens unless the environment variable
+``T4_GEOM_CONVERT_VERIF`` is set to ``1`` **and** a sink has been registered
+with :func:`set_sink`; the hooks never modify the objects they are given.
+'''
+
+import os
+
+_ENABLED = os.environ.get('T4_GEOM_CONVERT_VERIF') == '1'
+_SINK = None
+
+
+def set_sink(sink):
+    '''Register `sink` (a callable taking a stage name and a dictionary of
+    live objects), or unregister the current one by passing `None`.'''
+    global _SINK  # pylint: disable=global-statement
+    _SINK = sink
+
+
+def emit(stage, **objects):
+    '''Report that the conversion has reached `stage`.'''
+    if _ENABLED and _SINK is not None:
+        _SINK(stage, objects)
